@@ -633,3 +633,44 @@ Proof.
     specialize (H2 is32 bits Hb Hf). unfold inst_parse_float in H2. destruct is32; exact H2.
   - split; [exact H3|]. intros s d Hd. exists 0%Z. unfold inst_orc. cbn [DS.o_decimal]. rewrite Hd. split; [reflexivity|lia].
 Qed.
+
+(* ================================================================ down to the bytes *)
+From J5V.proofs Require Import CodecEncLex.
+
+Section FullBytes.
+  Variable fmt_float : bool -> N -> bytes.
+  Variable any_inner : bytes -> bytes -> outcome bytes.
+  Variable orc : DS.oracles.
+  Variable env : env.
+  Hypothesis Hflat : oneofs_flat env.
+  Hypothesis Hnames : oneof_names_ok env.
+  Hypothesis Hitems : env_items_ok env.
+  Hypothesis Hfloat_ok : float_text_ok fmt_float.
+  Hypothesis Hfloat : orc_float_ok fmt_float orc.
+  Hypothesis Htime : orc_time_ok orc.
+  Hypothesis Hdecimal : orc_decimal_ok orc.
+  Hypothesis Hinner : inner_ok any_inner.
+
+  (* C01 on the encoder's TEXT, through the decoder family's byte-level model (tokenizer Json.lex,
+     token-level decoder CodecDec.decode_bytes — the models tied to encoding/json and decoder.go by
+     that family's correspondence streams) *)
+  Theorem codec_full_bytes root m : rep_root any_inner env root m ->
+    exists txt J, encode fmt_float any_inner env root m = Ok txt /\ txt = print J /\ wfb J = true /\
+      (DT.jdepth J <= DD.max_scan_depth ->
+       exists m', DD.decode_bytes orc env root txt = Ok m' /\ equiv_root any_inner raw_dec env root m m').
+  Proof.
+    intros Hrep.
+    destruct (encode_total fmt_float any_inner (dsc_dec orc) env Hflat
+                (scalar_rt_dec fmt_float orc Hdecimal Hfloat_ok Hfloat Htime) root m Hrep) as (txt & Henc).
+    destruct (codec_roundtrip_print fmt_float any_inner (dsc_dec orc) raw_dec raw_dec_nonempty true env Hflat Hnames
+                (scalar_rt_dec fmt_float orc Hdecimal Hfloat_ok Hfloat Htime) Hinner root m txt Hrep Henc)
+      as (J & -> & Hw & Hdec).
+    exists (print J), J. split; [exact Henc|]. split; [reflexivity|]. split; [exact Hw|]. intros Hd.
+    destruct Hdec as (m' & Hm' & Heq).
+    { pose proof (jnest_le_jdepth J). unfold DD.max_scan_depth, max_nesting in *. lia. }
+    exists m'. split; [|exact Heq].
+    rewrite (TP.decode_bytes_tree orc env root (print J) J [] false).
+    - apply decode_tree_sim; assumption.
+    - rewrite app_nil_r. apply lex_print. exact Hw.
+  Qed.
+End FullBytes.
